@@ -431,17 +431,45 @@ theorem mapRoots_spec {umap : TreeMap Int Int} {P : Int → Int → Prop} (r : R
   | list l => exact Roots.mapE_spec (.list l) (by simp) h
   | dict d => exact Roots.mapE_spec (.dict d) (by simp) h
 
+/-- `load` after the `levels=True` pre-check -/
+def loadPickleBody (f : PickleFile) (levels : Bool) : M Roots := fun m =>
+  match loadVars levels f.vars.length f.vars [] m with
+  | (.error e, m1) => (.error e, m1)
+  | (.ok lm, m1) =>
+    match loadAll f.succ lm (f.vars.length + f.succ.length + 2) f.succ {} m1 with
+    | (.error e, m2) => (.error e, m2)
+    | (.ok umap, m2) => (mapRoots umap f.roots, m2)
+
+theorem loadPickle_eq (f : PickleFile) (levels : Bool) (m : Mgr) :
+    loadPickle f levels m =
+      if (levels && !levelsCompatible m.tbl f.vars) = true then (.error .value, m)
+      else loadPickleBody f levels m := rfl
+
+theorem loadPickle_of_compat (f : PickleFile) (levels : Bool) (m : Mgr)
+    (h : levels = true → levelsCompatible m.tbl f.vars = true) :
+    loadPickle f levels m = loadPickleBody f levels m := by
+  rw [loadPickle_eq]
+  cases levels with
+  | false => simp
+  | true => simp [h rfl]
+
+theorem loadPickle_refused (f : PickleFile) (m : Mgr) (h : levelsCompatible m.tbl f.vars = false) :
+    loadPickle f true m = (.error .value, m) := by
+  rw [loadPickle_eq]; simp [h]
+
 /-- the second half of `load`: with the variables declared, the nodes are rebuilt and the
 roots denote (over the target's levels) what the file says -/
 theorem loadPickle_core {Q : Mgr → Prop} (hQ : LoadKeeps Q) (f : PickleFile) (levels : Bool) (lm : List (Nat × Nat))
     (m m1 : Mgr) (hv : loadVars levels f.vars.length f.vars [] m = (.ok lm, m1))
     (hI : Inv m1) (hq : Q m1) (hc : m1.ctx = false) (hs : SuccWF f.succ f.vars.length)
-    (hl : LMOK f.succ lm m1.nvars) (hr : RootsResolvable f) :
+    (hl : LMOK f.succ lm m1.nvars) (hr : RootsResolvable f)
+    (hcomp : levels = true → levelsCompatible m.tbl f.vars = true) :
     ∃ roots' m', loadPickle f levels m = (.ok roots', m') ∧ Inv m' ∧ Frame m1 m' ∧
       Ext m1.tbl m'.tbl ∧
       RootsRel (fun u r => m'.tbl.Mem r ∧
         ∀ a, den m'.tbl r a = evalL f.succ lm (f.vars.length + 1) u a) f.roots roots' ∧ Q m' := by
-  unfold loadPickle
+  rw [loadPickle_of_compat f levels m hcomp]
+  unfold loadPickleBody
   rw [hv]
   dsimp only
   obtain ⟨umap, m2, e2, I2, F2, X2, U2, _, A2, Q2⟩ :=
@@ -815,6 +843,86 @@ that denotes — as a function of variable NAMES — what the file says -/
 def LoadedFrom (f : PickleFile) (t : Tbl) (roots' : Roots) : Prop :=
   RootsRel (fun u r => t.Mem r ∧ ∀ α, denBy t r α = evalPickle f u α) f.roots roots'
 
+theorem levelsCompatible_iff (t : Tbl) (vs : List (String × Nat)) :
+    levelsCompatible t vs = true ↔ ∀ var i, (var, i) ∈ vs →
+      (∀ j, t.vars[var]? = some j → j = i) ∧
+      (t.vars[var]? = none → ∀ v', t.l2v[i]? = some v' → v' = var) := by
+  unfold levelsCompatible
+  rw [List.all_eq_true]
+  constructor
+  · intro h var i hm
+    have := h (var, i) hm
+    dsimp only at this
+    constructor
+    · intro j hj; rw [hj] at this; simpa using this
+    · intro hn v' hv'; rw [hn] at this; dsimp only at this; rw [hv'] at this; simpa using this
+  · intro h x hx
+    obtain ⟨var, i⟩ := x
+    obtain ⟨h1, h2⟩ := h var i hx
+    dsimp only
+    cases hv : t.vars[var]? with
+    | some j => simp [h1 j hv]
+    | none =>
+      dsimp only
+      cases hl : t.l2v[i]? with
+      | none => rfl
+      | some v' => simp [h2 hv v' hl]
+
+/-- a successful `levels=True` declaration loop means the pre-check had passed -/
+theorem loadVars_true_compat (n : Nat) :
+    ∀ (vs : List (String × Nat)) (lm : List (Nat × Nat)) (m : Mgr) (lm' : List (Nat × Nat)) (m' : Mgr),
+      loadVars true n vs lm m = (.ok lm', m') → DmpVarsBij m.tbl → levelsCompatible m.tbl vs = true := by
+  intro vs
+  induction vs with
+  | nil => intro _ _ _ _ _ _; rfl
+  | cons x rest ih =>
+    intro lm m lm' m' h hb
+    obtain ⟨var, i⟩ := x
+    rw [loadVars] at h
+    dsimp only at h
+    by_cases hin : i < n
+    · simp only [hin, not_true_eq_false, if_false, if_true] at h
+      cases hav : addVar var (some (i : Int)) m with
+      | mk res m1 =>
+        rw [hav] at h
+        cases res with
+        | error e => simp at h
+        | ok j =>
+          dsimp only at h
+          obtain ⟨B1, V1, M1, _, _, L1⟩ := addVar_facts hav hb
+          have hji : j = i := L1 i rfl
+          subst hji
+          have ih' := (levelsCompatible_iff _ _).mp (ih _ m1 lm' m' h B1)
+          rw [levelsCompatible_iff]
+          intro v l hm
+          rcases List.mem_cons.mp hm with heq | hm'
+          · simp only [Prod.mk.injEq] at heq
+            obtain ⟨rfl, rfl⟩ := heq
+            constructor
+            · intro j' hj'
+              have := M1 v j' hj'
+              rw [V1] at this; cases this; rfl
+            · intro hn v' hv'
+              rcases dmp_addVar_cases hav with ⟨h1, _, _⟩ | ⟨_, h2, _, _⟩
+              · rw [hn] at h1; cases h1
+              · rw [h2] at hv'; cases hv'
+          · obtain ⟨a1, a2⟩ := ih' v l hm'
+            constructor
+            · intro j' hj'; exact a1 j' (M1 v j' hj')
+            · intro hn v' hv'
+              -- `l2v` only grows
+              have hl1 : m1.tbl.l2v[l]? = some v' := by
+                rw [← B1]
+                exact M1 v' l ((hb v' l).mpr hv')
+              cases hv1 : m1.tbl.vars[v]? with
+              | none => exact a2 hv1 v' hl1
+              | some j' =>
+                have := a1 j' hv1
+                subst this
+                have := (B1 v j').mp hv1
+                rw [hl1] at this; cases this; rfl
+    · simp [hin] at h
+
 /-- `BDD.load` on a well-formed file content: if the loader accepts the variables
 (`_load_pickle`'s first loop succeeds) and leaves no level gap, the load succeeds, the
 manager invariant is kept, old nodes are untouched, and the result is `LoadedFrom` the file
@@ -844,6 +952,7 @@ theorem pickle_loadQ {Q : Mgr → Prop} (hQ : LoadKeeps Q) (f : PickleFile) (lev
     · exact hg v j hv'
   obtain ⟨roots', m', e1, I2, F2, X2, RR, Q2⟩ :=
     loadPickle_core hQ f levels lm m m1 hv I1 Q1 (C1.trans hc) hwf.succ hl hr
+      (fun hlv => by subst hlv; exact loadVars_true_compat _ _ _ _ _ _ hv hb)
   have hn : NameOK f lm m'.tbl := by
     intro i j hij
     rcases R1 _ _ hij with h | ⟨v, hv1, hv2⟩
@@ -1476,7 +1585,8 @@ theorem pickle_roundtrip_any_order
   refine ⟨roots', m', e, I, ?_, N, loadedAs_of_loadedFrom hIs hvs hd R⟩
   -- the order tables of `m'` are those of `m1` (only nodes were added)
   have hfr : m'.tbl.vars = m1.tbl.vars ∧ m'.tbl.l2v = m1.tbl.l2v ∧ m'.tbl.nvars = m1.tbl.nvars := by
-    unfold loadPickle at e
+    rw [loadPickle_of_compat f false tgt (fun h => by cases h)] at e
+    unfold loadPickleBody at e
     rw [hv] at e
     dsimp only at e
     cases hla : loadAll f.succ lm (f.vars.length + f.succ.length + 2) f.succ {} m1 with
@@ -2251,11 +2361,16 @@ theorem loadJson_loadOrder_enables_reordering (f : JsonFile) (m m' : Mgr) (r : R
   unfold loadJson at h
   simp only [if_true] at h
   obtain ⟨_, m1, _, h⟩ := M.dmp_bind_ok h
-  obtain ⟨_, m2, _, h⟩ := M.dmp_bind_ok h
-  obtain ⟨_, m3, _, h⟩ := M.dmp_bind_ok h
-  obtain ⟨cache, m4, _, h⟩ := M.dmp_bind_ok h
-  obtain ⟨ks, m5, _, h⟩ := M.dmp_bind_ok h
-  obtain ⟨us, m6, _, h⟩ := M.dmp_bind_ok h
+  generalize jsonTry f true m1 = tr at h
+  obtain ⟨rt, cache, m6⟩ := tr
+  cases rt with
+  | error e =>
+    unfold jsonFinish at h
+    dsimp only at h
+    split at h <;> simp at h
+  | ok us =>
+  unfold jsonFinish at h
+  simp only [if_true] at h
   generalize (releaseLoop true cache cache none m6) = rl at h
   obtain ⟨rr, last, m7⟩ := rl
   dsimp only at h
